@@ -22,11 +22,15 @@ PID = "C04"
 def replay(src_code: str, dst_code: str, kind: str, rho: Fraction, tol: float,
            prelude: str = "") -> str:
     mag = {"int": "7", "float": "7.5", "dec": "Decimal('7.5')"}[kind]
+    # magnitudes of the numeric type the obligation was about, across many orders of magnitude (a
+    # result that is not proportional to the magnitude shows at the small or the large end)
+    spread = {"int": "10**12, -10**15", "float": "1e-12, -3e-17, 1e12",
+              "dec": "Decimal('1e-12'), Decimal('-3e-17'), Decimal('1e-22'), Decimal('1e12')"}[kind]
     return (families.REPLAY_IMPORTS + "from decimal import Decimal\n" + prelude + f"""
 src, dst = {src_code}, {dst_code}
 rho = {float(rho)!r}   # size(src)/size(dst) from the declarations, independent of the planner
 bad = []
-for m in ({mag}, 0, -3, 1, 1000000):
+for m in ({mag}, 0, -3, 1, 1000000, {spread}):
     try:
         r = (m * src).in_unit(dst)
     except measured.conversions.ConversionNotFound:
@@ -55,7 +59,17 @@ def check_pair(acc: work.Acc, src: Any, dst: Any, kind: str, ratios: List[Tuple[
     if cv.outcome != "ok":
         # AssertionError & co: C07's business; forks/nonlinear: never expected
         if cv.outcome in ("forks", "nonlinear"):
-            raise symnum.HarnessError(f"{label}: {cv.outcome}: {cv.msg}")
+            # the result is not one affine map of the magnitude: a violation if it shows on the real
+            # library (against the declared size), otherwise outside what this encoding can decide
+            if not ratios:
+                acc.ob("unknown", f"{label}/{kind}: {cv.outcome}: {cv.msg[:80]}", key)
+                return "unknown"
+            acc.ob("sat", f"{label}/{kind}:proportional-to-the-magnitude", key)
+            acc.out["viol"].append((f"C04:{label}:not-proportional",
+                                    f"{label} ({kind} magnitudes): the result is not proportional to the magnitude "
+                                    f"({cv.outcome}: {cv.msg[:100]})",
+                                    replay(src_code, dst_code, kind, ratios[0][0], max(tol, 1e-9), prelude), "soft"))
+            return "viol"
         acc.count(f"raised_{cv.outcome}(C07 matter)")
         return "raised"
     if kind == "float" and cv.d == 0 and cv.c and not prelude and collect:
